@@ -79,7 +79,18 @@ func init() {
 		},
 		"vpYield":       func(e *Exec, _ *frame, _ *ssa.Function, a []Value) Value { e.yield(); return nil },
 		"vpIsOpaqueStr": func(e *Exec, _ *frame, _ *ssa.Function, a []Value) Value { return e.c.Bool(a[0].(Str).OpaqueID != 0) },
-		"vpHash64":      vpHash64,
+		"vpClock": func(e *Exec, _ *frame, _ *ssa.Function, a []Value) Value {
+			// the k-th value the clock stub returned under that name
+			name := fmt.Sprintf("%s#%d", argStr(e, a[0]), e.concreteInt(a[1], "vpClock index"))
+			if v, ok := e.c.Vars[name]; ok {
+				return v
+			}
+			if e.concrete {
+				return e.c.BV(e.inputs[name], 64)
+			}
+			panic(pathEnd{endEngineBug, "vpClock: the clock stub has not returned " + name})
+		},
+		"vpHash64": vpHash64,
 		"vpNote": func(e *Exec, _ *frame, _ *ssa.Function, a []Value) Value {
 			e.obs = append(e.obs, obsRec{tag: argStr(e, a[0])})
 			return nil
